@@ -439,9 +439,11 @@ from . import rules_misc as RM
       "Only the structural necessary condition is decided: at each of the five cell-addressing sites (three count-min query kernels, "
       "heavy-hitter _add and _max_count) fasthash64 is called once per row inside `for row in range(depth)` with a seed that is an "
       "injective function of the row, the result is reduced modulo the width parameter, and every table access of that iteration is "
-      "[row, that column]. The statistical statement (uniformity, independence across seeds, the exp(-depth) tail) is NOT decided.")
+      "[row, that column]; and the hash itself is computed from its seed on every path (seeddep: definite syntactic dependency of each "
+      "return of fasthash64 on `seed`, loops followed to a fixed point). The statistical statement (uniformity, independence across seeds, the exp(-depth) tail) is NOT decided.")
 def c14(ctx):
     n = RM.rule_seedrow(ctx)
+    RM.rule_seeddep(ctx)
     RA.rule_bind(ctx, [c for c in SKETCH_CLASSES if c[1] != "HyperLogLog"])
     ctx.floor("seedrow", 10)
     ctx.undecided_clauses.append("uniformity of FastHash within a row and independence across seeds; the exp(-depth) bound itself -- statistical, not decided")
@@ -453,7 +455,8 @@ def c14(ctx):
       "store it back; (batchconst) one batch length N in the refill test, the refill, and both constructors, draws read at the "
       "pre-increment pointer, refill replaces the whole batch with np.random.rand(N); (expo) the increment probability base**(-(c - "
       "num_reserved)) and the decoder's base**(c - num_reserved) use opposite exponents, the decoder is the geometric sum, and the "
-      "deterministic ranges of writer and reader match. NOT decided: the numerical law (expectation, distribution), uniformity of the "
+      "deterministic ranges of writer and reader match; (lossless-args, ctor-args) max_count and num_reserved, which determine the base, "
+      "are saved without loss and restored into their own constructor positions. NOT decided: the numerical law (expectation, distribution), uniformity of the "
       "generator, the lower bound over histories.")
 def c06(ctx):
     RM.rule_randtoken(ctx)
@@ -469,6 +472,10 @@ def c06(ctx):
     RA.rule_call_range(ctx, only=RA.class_kernels(F, COUNTMIN[1:], ("add", "add_ngram", "query")))
     RA.rule_bind(ctx, COUNTMIN[1:])
     RA.rule_attr_type(ctx, COUNTMIN[1:], methods=("add", "add_ngram", "update", "update_ngram", "query", "__getitem__"))        # num_reserved / base / ceiling reach every log kernel at full width
+    # the base a reloaded sketch decodes (and steps) with is the base its counters were driven with: the two parameters that determine
+    # it are written without loss and handed back to the constructor in their own positions
+    with ctx.only({"lossless-args", "ctor-args"}):
+        RT.rule_persist(ctx, COUNTMIN[1:])
     ctx.floor("randtoken", 10)
     ctx.floor("batchconst", 7)
     ctx.floor("expo", 5)
@@ -560,6 +567,7 @@ def c08(ctx):
     RP.rule_rettable(ctx)
     RP.rule_spawn_pickle(ctx)
     RT.rule_attach_table(ctx)
+    RT.rule_argsdict(ctx)          # workers and mergers rebuild their views from `.args`: it must record the constructor's own arguments
     mk = RA.merge_kernels(F)
     RA.rule_sumcounters(ctx, [k for k in mk if F.param_for(k, "n_added_records")], rule="nrecs")
     RA.rule_cover(ctx, [k for k in mk if k.parallel])
